@@ -68,9 +68,11 @@ def generate(rng, tier, idx):
         t2 = rng.choice(TAU_GRID)
         if fam == 'Frank' and rng.random() < 0.5:
             t2 = -t2
+        op_r = {'op': 'reparam', 'tau': t2, 'how': rng.choice(['assign', 'compute'])}
         if fam == 'Frank' and rng.random() < 0.4:
-            t2 = -tau                     # exactly the mirrored dependence
-        ops.append({'op': 'reparam', 'tau': t2, 'how': rng.choice(['assign', 'compute'])})
+            op_r['mirror'] = True         # exactly the mirrored dependence of the current model
+            op_r['how'] = 'compute'
+        ops.append(op_r)
         ops.append({'op': 'sample', 'n': rng.choice([10, 2000, 2000])})
     if fam != 'Frank' and rng.random() < 0.15:
         # history: a refit on data the family refuses (negative dependence); the caller keeps
@@ -81,7 +83,9 @@ def generate(rng, tier, idx):
                                                     'seed': rng.randrange(2**31)}})
         ops.append({'op': 'sample', 'n': 2000, 'may_refuse': True})
     run = {'family': fam, 'tau': tau, 'how': how, 'seed': zoo.rand_seedspec(rng),
-           'g0': rng.randrange(2**31), 'ops': ops}
+           'g0': rng.randrange(2**31), 'ops': ops,
+           # theta from the model's own calibration routine instead of the reference map
+           'via_compute': rng.random() < 0.4}
     if how == 'fit':
         run['fit_data'] = {'kind': 'pobs', 'n': rng.randint(150, 400), 'tau': tau,
                            'seed': rng.randrange(2**31)}
@@ -150,7 +154,10 @@ def _build(run, ctx):
         model.theta = np.float64(model.compute_theta())
     else:
         model.tau = run['tau']
-        model.theta = refs.theta_of_tau(fam, run['tau'])
+        if run.get('via_compute') and run['tau'] != 0:
+            model.theta = model.compute_theta()
+        else:
+            model.theta = refs.theta_of_tau(fam, run['tau'])
     return model, fam
 
 
@@ -265,14 +272,14 @@ def execute(run):
             np.random.seed(op['s'] % (2**32))
             ctx.faults['F5_foreign_reseed'] += 1
         elif op['op'] == 'reparam':
-            model.tau = op['tau']
+            model.tau = -float(model.tau) if op.get('mirror') else op['tau']
             if op['how'] == 'compute':
                 model.theta = model.compute_theta()
             else:
                 model.theta = refs.theta_of_tau(fam, op['tau'])
             tb = '%+.1f' % (round(float(model.tau) * 5) / 5.0)
             ctx.probes['reparameterised_in_place'] += 1
-            ctx.event('reparam', op['tau'], float(model.theta))
+            ctx.event('reparam', float(model.tau), float(model.theta))
         elif op['op'] == 'refit_refused':
             X = zoo.gen_data(op['data'])
             o = outcome(model.fit, X)
